@@ -4,8 +4,9 @@
 //! For a JSON document `d` (valid, or mutated) the implementation decodes it with
 //! `serde_json::from_value::<T>` and, when accepted, writes it again with `to_value`; the model does
 //! the same (`doc_dec`).  Both must agree on accept / reject and on the rewritten document.  The
-//! behaviour of chrono's RFC 3339 reader / writer and of the public-key (de)serialiser on the strings
-//! and key descriptions that occur in `d` is observed here and handed to the model as tables.
+//! behaviour of the public-key (de)serialiser on the key descriptions that occur in `d` is observed
+//! here and handed to the model as a table; `expires` is read and written by the model's own RFC 3339
+//! reader / writer (Model/Time.lean, also exercised text by text in `timegen.rs`).
 use crate::jsongen::{gen_string, proto};
 use crate::meta::*;
 use crate::proto::{guarded, hexs, Sink};
@@ -31,32 +32,6 @@ fn collect_member<'a>(v: &'a Value, name: &str, out: &mut Vec<&'a Value>) {
         Value::Array(xs) => xs.iter().for_each(|x| collect_member(x, name, out)),
         _ => {}
     }
-}
-
-fn time_table(doc: &Value) -> String {
-    use chrono::SecondsFormat;
-    let mut exps = vec![];
-    collect_member(doc, "expires", &mut exps);
-    let mut seen: Vec<String> = vec![];
-    let mut out = String::new();
-    for e in exps {
-        if let Value::String(s) = e {
-            if seen.contains(s) {
-                continue;
-            }
-            seen.push(s.clone());
-            let res = match chrono::DateTime::parse_from_rfc3339(s) {
-                Ok(dt) => {
-                    let u = dt.with_timezone(&chrono::Utc);
-                    let inst = u.timestamp() as i128 * 1_000_000_000 + u.timestamp_subsec_nanos() as i128;
-                    format!("A2 I{} S{}", inst, hexs(&u.to_rfc3339_opts(SecondsFormat::Secs, true)))
-                }
-                Err(_) => "N".to_string(),
-            };
-            out.push_str(&format!(" S{} {}", hexs(s), res));
-        }
-    }
-    format!("T {}{}", seen.len(), out)
 }
 
 fn key_table(doc: &Value) -> String {
@@ -116,7 +91,7 @@ fn answer<T: Serialize + DeserializeOwned + PartialEq + 'static>(sink: &mut Sink
 }
 
 pub fn doc_case(sink: &mut Sink, kind: &str, doc: &Value, class: &str) {
-    let op = format!("doc_dec {} {} {} {}", kind, proto(doc, &mut None), time_table(doc), key_table(doc));
+    let op = format!("doc_dec {} {} {}", kind, proto(doc, &mut None), key_table(doc));
     let ans = match kind {
         "link" => answer::<LinkMetadata>(sink, doc, &op),
         "step" => answer::<Step>(sink, doc, &op),
